@@ -249,6 +249,8 @@ def build(raw, opts=None):
     opts = opts or {}
     lib = Lib()
     lib.impl_mode = bool(opts.get("impl"))
+    lib.no_overloads = bool(opts.get("no_overloads"))
+    avoid = set(opts.get("avoid", ()))
     want_ns = raw.get("ns") and not opts.get("no_namespace")
     nsname = "nsp" if want_ns else None
     lib.ns = nsname
@@ -314,6 +316,12 @@ def build(raw, opts=None):
             b = lib.classes[rb["c"] % ci]
             if b["id"] in seen_bases or b.get("final") or b.get("no_derive"):
                 continue
+            prev = [x["c"] for x in c["bases"]]
+            if any(b in _ancestors(x) or x in _ancestors(b) for x in prev):
+                # a direct base that is also an indirect base (inaccessible: g++ warns)
+                if "base.direct_and_indirect" in avoid:
+                    continue
+                lib.features.add("base.direct_and_indirect")
             seen_bases.add(b["id"])
             c["bases"].append({"c": b, "acc": ["public", "protected", "private"][rb["acc"]], "virt": bool(rb["virt"])})
         if any(b["c"].get("abstract") for b in c["bases"]):
@@ -580,6 +588,8 @@ def _sigs(lib, rawsigs, rtype, ent):
     """normalised overload set: unique (arity, type-key prefix) over all callable arities"""
     out = []
     used = set()
+    if lib.no_overloads:
+        rawsigs = [dict(rs, ndef=0) for rs in rawsigs[:1]]
     for rs in rawsigs:
         params = [rtype(p) for p in rs["params"]]
         ret = rtype(rs["ret"], allow_void=True)
@@ -763,6 +773,14 @@ def _render(lib, opts):
     # when something lives in a sibling header, the command-line header is given with a directory component
     # (pkg/l.h) and the sibling is found through the includer's directory, not through the working directory
     main = "pkg/l.h" if per_file["sib"] else "l.h"
+    if lib.impl_mode:
+        # the generated code includes every header on its own, in alphabetical order: each header must be self-contained,
+        # so it includes the lower-ranked headers its declarations may depend on
+        spell = {"S": "#include <l_sys.h>", "I": '#include "l_inc.h"', "sib": '#include "pkg/l_sib.h"'}
+        lower = {"I": ["S"], "sib": ["S", "I"], "cwd": ["S", "I", "sib"]}
+        for key, deps in lower.items():
+            if per_file[key]:
+                per_file[key] = [spell[k] for k in deps if per_file[k]] + per_file[key]
     files[main] = "#ifndef L_H\n#define L_H\n#include <l_common.h>\n" + "\n".join(inc_lines) + "\n" + body("main") + "\n#endif\n"
     if per_file["sib"]:
         files["pkg/l_sib.h"] = "#ifndef L_SIB_H\n#define L_SIB_H\n#include <l_common.h>\n" + body("sib") + "\n#endif\n"
